@@ -28,6 +28,14 @@ Definition compile_of (stack : list tracer) (f : N) (source_loader same_thread :
   if wraps stack f source_loader same_thread
   then match loader_tracers (finder_tracers stack f) f with [] => Stock | ts => Rewritten (map t_id ts) end
   else Stock.
+(* a loader can outlive the moment it was handed out (importlib.util.LazyLoader; find_spec now, exec_module later): it holds the
+   finder's tracers, and only those still on the stack when it LOADS take part (TraceLoader._tracers) *)
+Definition live (held load_stack : list tracer) : list tracer :=
+  filter (fun t => existsb (N.eqb (t_id t)) (map t_id load_stack)) held.
+Definition compile_later (found_stack load_stack : list tracer) (f : N) (source_loader same_thread : bool) : compiled :=
+  if wraps found_stack f source_loader same_thread
+  then match loader_tracers (live (finder_tracers found_stack f) load_stack) f with [] => Stock | ts => Rewritten (map t_id ts) end
+  else Stock.
 (* TraceLoader.exec_module: tracers switched off while the module body runs *)
 Definition disabled_during_exec (stack : list tracer) (f : N) : list N :=
   map t_id (filter (fun t => negb (t_accepts t f) && t_enabled t) (finder_tracers stack f)).
